@@ -309,6 +309,9 @@ func runCase(run *lib.Run, c int64, base string) {
 		if adv.AttackLockAmnesia(true) {
 			run.Count("template_amnesia_crash_staged", 1)
 		}
+		if adv.LateCrashes > 0 {
+			run.Count("template_amnesia_late_crash_with_byzantine_echo", 1)
+		}
 	}
 	reached := adv.RunUntil(cc.Heights, lib.Pick(2500, 6000))
 	if !reached && !m.failed {
